@@ -311,8 +311,7 @@ class StepOracle:
     def vertices_inside_edges(self):
         """(vertex, edge) pairs where a child vertex lies in the relative interior of a child cell's edge.
         Candidates come from a k-d tree (a point of the segment is within L/2 of its midpoint); the decision
-        is exact (collinear and strictly between) or, in tolerance mode, distance <= 1e-7 L (a vertex that
-        close to the interior of an edge is a hanging node for every purpose)."""
+        is exact (collinear and strictly between) or, in tolerance mode, distance <= 1e-9 L + 1e-13 max|x|."""
         from scipy.spatial import cKDTree
         d = self.d
         pairs = set()
@@ -335,7 +334,8 @@ class StepOracle:
         w = self.Pc[:, vv] - a
         tpar = (w * u).sum(axis=0) / L[ee] ** 2
         dist2 = ((w - tpar * u) ** 2).sum(axis=0)
-        near = (tpar > 1e-9) & (tpar < 1 - 1e-9) & (dist2 <= 1e-14 * L[ee] ** 2)
+        cmax = float(np.abs(self.Pc).max())
+        near = (tpar > 1e-9) & (tpar < 1 - 1e-9) & (dist2 <= (1e-9 * L[ee]) ** 2 + (1e-13 * cmax) ** 2)
         out = []
         for e, v in zip(ee[near].tolist(), vv[near].tolist()):
             ia, ib = int(E[0, e]), int(E[1, e])
